@@ -64,6 +64,15 @@ type Client struct {
 	Paused         bool
 	readEv         string
 	MaxOutstanding int // 0 = unlimited pipelining
+	// Gate, when set, must allow request idx to be sent (global sequencing); Kick re-evaluates it.
+	Gate func(c *Client, idx int) bool
+}
+
+// Kick re-evaluates whether the next request may be sent (used with Gate).
+func (c *Client) Kick() {
+	if c.Connected && len(c.chunks) == 0 && c.next < len(c.Script) {
+		c.pump()
+	}
 }
 
 func NewClient(rt *simhook.Runtime, net *simnet.Net, name, addr string, script []Request) *Client {
@@ -110,6 +119,9 @@ func (c *Client) pump() {
 			return
 		}
 		r := c.Script[c.next]
+		if c.Gate != nil && !c.Gate(c, c.next) {
+			return
+		}
 		if (r.Wait || (c.MaxOutstanding > 0 && c.outstanding() >= c.MaxOutstanding)) && c.outstanding() > 0 {
 			return // resumed from onData
 		}
